@@ -1,0 +1,18 @@
+// SPDX-License-Identifier: GPL-3.0-or-later
+
+//go:build verif
+// +build verif
+
+package storage
+
+import "github.com/timshannon/badgerhold"
+
+// VerifTuneOptions, if set by an external verification harness, may adjust the badger options (e.g. smaller
+// memtables, to make thousands of short-lived stores affordable) before a Store is opened.
+var VerifTuneOptions func(*badgerhold.Options)
+
+func verifTuneOptions(opts *badgerhold.Options) {
+	if VerifTuneOptions != nil {
+		VerifTuneOptions(opts)
+	}
+}
